@@ -32,7 +32,34 @@ SKELETONS = {
     "unreachable_block": (3, [(0, 1, None)], 0, 1),
     "loopexit2": (5, [(0, 1, None), (1, 2, ("c", 0)), (1, 4, ("n", 0)), (2, 1, ("c", 1)), (2, 3, ("n", 1))], 0, 4),
 }
+SKELETONS["longarm_a"] = (6, [(0, 1, ("c", 0)), (0, 4, ("n", 0)), (1, 2, None), (2, 3, None), (3, 5, None), (4, 5, None)], 0, 5)
+SKELETONS["longarm_b"] = (6, [(0, 1, ("c", 0)), (0, 2, ("n", 0)), (1, 5, None), (2, 3, None), (3, 4, None), (4, 5, None)], 0, 5)
+SKELETONS["loop_or_block"] = (6, [(0, 1, ("c", 0)), (0, 2, ("n", 0)), (1, 5, None), (2, 3, None), (3, 4, ("c", 1)), (3, 5, ("n", 1)), (4, 3, None)], 0, 5)
 EMPTY_BLOCKS = {"emptyarms": {1, 2}}
+
+
+def random_skeleton(rnd, n):
+    """Random CFG: every block i>0 is reachable (an edge from some j<i), out-degree <= 2 with
+    complementary guards, extra forward/backward edges; blocks without out-edges are exits."""
+    succ = {i: [] for i in range(n)}
+    for i in range(1, n):
+        cands = [j for j in range(i) if len(succ[j]) < 2]
+        j = rnd.choice(cands) if cands else rnd.randrange(i)
+        if len(succ[j]) >= 2:
+            continue
+        succ[j].append(i)
+    for _ in range(rnd.randint(0, n)):
+        a, b = rnd.randrange(n - 1), rnd.randrange(n)
+        if len(succ[a]) < 2 and b not in succ[a] and b != 0:
+            succ[a].append(b)
+    edges = []
+    nc = 0
+    for a in range(n):
+        if len(succ[a]) == 1:
+            edges.append((a, succ[a][0], None))
+        elif len(succ[a]) == 2:
+            edges.append((a, succ[a][0], ("c", nc))); edges.append((a, succ[a][1], ("n", nc))); nc += 1
+    return (n, edges, 0, n - 1)
 
 
 class Gen:
@@ -142,7 +169,7 @@ class Gen:
 
     # -- functions
     def function(self, skel, n_per_block=(1, 4), extra=None, address=0x1000):
-        nb, edges, entry, exit_ = SKELETONS[skel]
+        nb, edges, entry, exit_ = SKELETONS[skel] if not skel.startswith("random") else random_skeleton(self.rnd, int(skel.split(":")[1]))
         r = self.rnd
         nconds = 1 + max([e[2][1] for e in edges if e[2]] + [-1])
         conds = []
@@ -215,7 +242,7 @@ def add_holes(f, rnd):
 
 def corpus(seed, count, profile="mixed", widths=(32, 8), sp=None, skeletons=None, extra=None):
     rnd = random.Random(seed)
-    names = skeletons or [k for k in SKELETONS if not k.startswith("unreachable")]
+    names = skeletons or ([k for k in SKELETONS if not k.startswith("unreachable")] + ["random:5", "random:6", "random:7", "random:8", "random:6", "random:7"])
     out = []
     for i in range(count):
         g = Gen(rnd, profile, widths, sp)
